@@ -118,6 +118,13 @@ def gen_one(r, i, tier):
         j = r.randrange(ndim)
         if DT[cols[j]] != "bool":
             extra["col_specs"] = {cols[j]: specs[j]}
+    # timestamp columns of every resolution (all generated instants are whole seconds)
+    extra["ts_unit"] = r.choice(["ns", "ns", "us", "ms", "s"])
+    # a time axis whose own width / offset differ from the user's specification of that column,
+    # which takes precedence (make_histograms: "note: bin_specs takes precedence")
+    if "t" in cols and r.random() < 0.5 and (cols == ["t"] or "t" in (extra.get("col_specs") or {})):
+        extra.update(time_axis="t", time_width=r.choice(["1d", "30d", 3600e9]),
+                     time_offset=r.choice(["2010-01-04", "2020-01-01"]))
     ops = []
     meta = {"mode": mode, "n": n, "cols": cols}
     ops.append(("dfhist", cols, DT, specs, copy.deepcopy(rows), extra)); meta["whole"] = 0
